@@ -116,6 +116,11 @@ func repoTestQueries(repo string) []string {
 	files = append(files, more...)
 	sort.Strings(files)
 	for _, f := range files {
+		if strings.HasPrefix(filepath.Base(f), "seeded_demo") {
+			// demonstrations of seeded changes (evaluation worktrees) are not part of the
+			// repository's suite and must not feed the generators
+			continue
+		}
 		src, err := os.ReadFile(f)
 		if err != nil {
 			continue
